@@ -57,7 +57,7 @@ SUBS = [
     Sub("shapes", check, enum=_bool.enum_shapes, nontrivial=nontrivial, classes=_bool.structure_classes,
         exhaustive=True, min_nontrivial=0.005),
     Sub("random-no-ctcs", check, gen=lambda tier: _bool.random_models(False), nontrivial=nontrivial,
-        classes=_bool.structure_classes, n={"quick": 400, "thorough": 4000}),
+        classes=_bool.structure_classes, n={"quick": 800, "thorough": 6000}),
     Sub("random-ctcs", check, gen=lambda tier: _bool.random_models(True, 10), nontrivial=nontrivial,
         classes=_bool.structure_classes, n={"quick": 200, "thorough": 2500}, essential=["with-ctcs"]),
 ]
